@@ -183,6 +183,8 @@ def expr_sig(c):
     sig["cmpsign"] = 1 if "cmp" in bk else 0
     sig["shiftsign"] = 1 if "shift" in bk else 0
     sig["belief_other"] = 1 if ("belief" in causes and not (bk & {"sel", "cmp", "shift"})) else 0
+    # 1: every promotion hypothesis `belief` adds / removes sits at an operand the back end's own rule takes for signed
+    sig["believed"] = 0 if "unbelieved" in bk else 1
     sig.update(producer=c["producer"], consumer=c["consumer"], rel=c["rel"], mf=c["mf"])
     return sig
 
@@ -642,6 +644,17 @@ def run(prop, report, tier, seed, log=print):
                       "(AST, shape) combinations are not part of the space (counted as skipped)")
         report.assume("Case labels are those of -1..3 representable in the selector's FHDL shape; Array indices are "
                       "unsigned-typed expressions")
+        report.assume("zero-delay synthesis semantics: continuous assignments and always @(*) blocks are settled combinational "
+                      "logic, also at time 0 (an event-driven simulator may not run an always @(*) block before its first input "
+                      "event); for loop-free logic the fixed point does not depend on the process order")
+        report.assume("2-state: a variable declared without initial value and a memory word beyond the $readmemh image start at 0 "
+                      "(the simulator's and an FPGA's power-up value; X in an event-driven simulator); memory depths are powers of "
+                      "two (an address beyond the depth is undefined in Verilog and clamped by the simulator)")
+        report.assume("instances of vendor primitives, tristates and clocks read as data are opaque to VerilogSem: a design "
+                      "containing one is skipped and counted; all signals at most 30 bits wide (TLC integers)")
+        report.assume("clock edges are the ticks of the reference simulator's TimeManager (periods 10 and 14: single and "
+                      "simultaneous edges); inputs change with the edge and are sampled by the next one, as a generator's "
+                      "`yield sig.eq(v)` does")
         coll = Collector(report)
         which = os.environ.get("VERIF_C01_LAYERS", "123")
         # layers 2 and 3 run beside layer 1 (whose TLC processes are single threaded); what they report is replayed
